@@ -251,6 +251,20 @@ func Main(args []string) error {
 			u := tl.SegURL(c, a, rt, -1) + "?nowMS=" + now
 			emit(tr.E{"ev": "nf", "what": "number below startNumber", "st": env.S.Get(u).Status, "url": u})
 		}
+		if cs.mode != "time" && c.EffSNR() > 0 && j.au != nil {
+			// audio and generated subtitles reach the number lookup through their own paths: every number below startNumber
+			for _, v := range []int64{c.EffSNR() - 1, 0} {
+				pat := strings.ReplaceAll(j.au.MediaPat, "$Number$", fmt.Sprint(v))
+				u := c.Prefix(a.Name) + "/" + pat + "?nowMS=" + now
+				emit(tr.E{"ev": "nf", "what": "audio number below startNumber", "st": env.S.Get(u).Status, "url": u})
+			}
+			for _, g := range []string{"stpp", "wvtt"} {
+				cg := c
+				cg.Extra = append(append([]string{}, c.Extra...), "timesubs"+g+"_en")
+				u := cg.Prefix(a.Name) + "/time" + g + "-en/" + fmt.Sprint(c.EffSNR()-1) + ".m4s?nowMS=" + now
+				emit(tr.E{"ev": "nf", "what": "generated subtitle number below startNumber", "st": env.S.Get(u).Status, "url": u})
+			}
+		}
 		u := c.Prefix(a.Name) + "/NOSUCHREP/1.m4s?nowMS=" + now
 		emit(tr.E{"ev": "nf", "what": "unknown representation", "st": env.S.Get(u).Status, "url": u})
 		u = c.Prefix("nosuchasset") + "/V300/1.m4s?nowMS=" + now
